@@ -597,3 +597,37 @@ func AllPathsGuarded(b *ssa.BasicBlock, ok func(cond ssa.Value, taken bool) bool
 	}
 	return walk(b)
 }
+
+// Deref looks through loads of local variables that are assigned exactly once
+// (variables that became memory cells only because a closure captures them).
+func Deref(v ssa.Value) ssa.Value {
+	for depth := 0; depth < 6; depth++ {
+		u, ok := v.(*ssa.UnOp)
+		if !ok || u.Op != token.MUL {
+			return v
+		}
+		a, ok := u.X.(*ssa.Alloc)
+		if !ok {
+			return v
+		}
+		st := Stores(a)
+		if len(st) != 1 {
+			return v
+		}
+		// no store through a closure's free variable either
+		if refs := a.Referrers(); refs != nil {
+			for _, r := range *refs {
+				if mc, ok := r.(*ssa.MakeClosure); ok {
+					fn := mc.Fn.(*ssa.Function)
+					for i, b := range mc.Bindings {
+						if b == ssa.Value(a) && i < len(fn.FreeVars) && len(Stores(fn.FreeVars[i])) > 0 {
+							return v
+						}
+					}
+				}
+			}
+		}
+		v = st[0]
+	}
+	return v
+}
